@@ -109,6 +109,28 @@ class Fx:
             await acc.ensure_address_gap()
         return tx, txos
 
+    async def fund_purchase_payment(self, account_index, chain, address_index, amount, height=10, is_verified=True):
+        """money RECEIVED for a purchase: a transaction [payment to our address, purchase-data output] as Transaction.purchase builds
+        it on the buyer's side.  The wallet types the payment output `purchase` (txo_type 4) and counts it as spendable funds."""
+        from lbry.wallet import Transaction, Output, Input
+        from lbry.wallet.constants import NULL_HASH32
+        from lbry.schema.purchase import Purchase
+        self._fund_counter += 1
+        address = (await self.addresses(self.accounts[account_index], chain))
+        address = address[address_index % len(address)]
+        h160 = self.ledger.address_to_hash160(address)
+        pay = Output.pay_pubkey_hash(amount, h160)
+        data = Output.add_purchase_data(Purchase('%040x' % (self._fund_counter * 7919)))
+        dummy_prev = Transaction(height=-2).add_outputs([Output.pay_pubkey_hash(amount + 100000 + self._fund_counter, NULL_HASH32)]).outputs[0]
+        tx = Transaction(is_verified=is_verified, height=height).add_inputs([Input.spend(dummy_prev)]).add_outputs([pay, data])
+        tx.locktime = self._fund_counter
+        tx._reset()
+        await self.ledger.db.insert_transaction(tx)
+        await self.ledger.db.save_transaction_io(tx, address, h160, f'{tx.id}:{height}:')
+        for acc in self.accounts:
+            await acc.ensure_address_gap()
+        return tx, [pay]
+
     async def sql(self, query, params=()):
         return await self.ledger.db.db.execute_fetchall(query, params)
 
